@@ -15,6 +15,8 @@
 //	(2 g sched)    UnboundedConcurrentQueue driven by g real goroutines under a forced schedule:
 //	               sched = ((tid code v) ...) with codes as in kind 1 (Enqueue/Dequeue/Peek/Len)
 //	               observed = as kind 1
+//	(4 P C n)      as (3 P C n) twice on the same queue (sequence numbers n..2n-1 in the second round); what the
+//	               main goroutine drained in between is reported as one more consumer
 //	(3 P C n)      free-running stress: P producers enqueue p<<20|seq for seq < n; C consumers dequeue
 //	               concurrently; observed = (((consumer_1 values) ... (consumer_C values)) (remaining) panics)
 //
@@ -410,12 +412,16 @@ func runScheduledOnce(in Sx, limit time.Duration) (Sx, bool) {
 // free-running producers and consumers
 func runStress(in Sx) Sx {
 	P, C, n := in.At(1).AsInt(), in.At(2).AsInt(), in.At(3).AsInt()
+	rounds := 1
+	if in.At(0).AsInt() == 4 { // fill, drain completely, use the same queue again
+		rounds = 2
+	}
 	if P < 1 || P > 64 || C < 1 || C > 64 || n < 0 || n > 1<<19 {
 		return List()
 	}
 	for attempt := 0; ; attempt++ {
 		res := make(chan Sx, 1)
-		go func() { res <- stress(P, C, n) }()
+		go func() { res <- stress(P, C, n, rounds) }()
 		limit := 20 * time.Second
 		if attempt > 0 {
 			limit = 100 * time.Second
@@ -436,19 +442,79 @@ func runStress(in Sx) Sx {
 
 // observed = (consumers remaining panics): panics = number of calls that ended in a run-time panic,
 // -1 = the scenario did not finish
-func stress(P, C, n int) Sx {
+func stress(P, C, n, rounds int) Sx {
 	q := queue.NewUnboundedConcurrentQueue()
+	// traffic on a second queue of the same type while the scenario runs: anything the package
+	// shares between queues would show (and race, under -race)
+	stop := make(chan struct{})
+	var decoys sync.WaitGroup
+	other := queue.NewUnboundedConcurrentQueue()
+	for g := 0; g < 2; g++ {
+		decoys.Add(1)
+		go func(g int) {
+			defer decoys.Done()
+			for k := 0; ; k++ {
+				select {
+				case <-stop:
+					return
+				default:
+				}
+				Catch(func() {
+					if (k+g)%3 == 0 {
+						other.Dequeue()
+					} else {
+						other.Enqueue(k)
+					}
+				})
+				if k%64 == 0 {
+					runtime.Gosched()
+				}
+			}
+		}(g)
+	}
+	defer func() { close(stop); decoys.Wait() }()
+	cs := make([][]Sx, C)
+	var extra [][]Sx // what the main goroutine drained between the rounds: one more consumer
+	var rest []Sx
+	panics := int64(0)
+	for r := 0; r < rounds; r++ {
+		got, rs, pk, aborted := stressRound(q, P, C, n, r*n)
+		panics += pk
+		if aborted {
+			return List(List(), List(), Int(panics))
+		}
+		for c := range got {
+			cs[c] = append(cs[c], got[c]...)
+		}
+		if r+1 < rounds {
+			extra = append(extra, rs) // the queue is now completely drained, and is used again
+		} else {
+			rest = rs
+		}
+	}
+	var l []Sx
+	for _, c := range cs {
+		l = append(l, ListOf(c))
+	}
+	for _, c := range extra {
+		l = append(l, ListOf(c))
+	}
+	return List(ListOf(l), ListOf(rest), Int(panics))
+}
+
+// one round: P producers enqueue p<<20|(base+s) for s < n, C consumers take about three quarters
+// concurrently, the caller's goroutine then drains the rest
+func stressRound(q *queue.UnboundedConcurrentQueue, P, C, n, base int) (got [][]Sx, rest []Sx, panics int64, wasAborted bool) {
 	total := P * n
-	// consumers together take about three quarters of what is produced
 	quota := make([]int, C)
 	left := total * 3 / 4
 	for c := 0; c < C; c++ {
 		quota[c] = left / (C - c)
 		left -= quota[c]
 	}
-	got := make([][]Sx, C)
+	got = make([][]Sx, C)
 	var wg sync.WaitGroup
-	var panics, producersDone int64
+	var producersDone int64
 	aborted := make(chan struct{}) // closed when a call panics: the mutex may have been left locked
 	var abortOnce sync.Once
 	abort := func() {
@@ -463,7 +529,7 @@ func stress(P, C, n int) Sx {
 			defer atomic.AddInt64(&producersDone, 1)
 			<-start
 			for s := 0; s < n; s++ {
-				if pk, _ := Catch(func() { q.Enqueue(p<<20 | s) }); pk {
+				if pk, _ := Catch(func() { q.Enqueue(p<<20 | (base + s)) }); pk {
 					abort()
 					return
 				}
@@ -503,9 +569,8 @@ func stress(P, C, n int) Sx {
 	case <-finishedAll:
 	case <-aborted:
 		// other goroutines may be parked on the mutex for ever: report what happened
-		return List(List(), List(), Int(atomic.LoadInt64(&panics)))
+		return nil, nil, atomic.LoadInt64(&panics), true
 	}
-	var rest []Sx
 	for len(rest) <= total {
 		var v interface{}
 		var ok bool
@@ -518,11 +583,7 @@ func stress(P, C, n int) Sx {
 		}
 		rest = append(rest, val(v))
 	}
-	cs := make([]Sx, C)
-	for c := range cs {
-		cs[c] = ListOf(got[c])
-	}
-	return List(ListOf(cs), ListOf(rest), Int(panics))
+	return got, rest, panics, false
 }
 
 func run(in Sx) Sx {
@@ -533,7 +594,7 @@ func run(in Sx) Sx {
 		return runUnbounded(in)
 	case 2:
 		return runScheduled(in)
-	case 3:
+	case 3, 4:
 		return runStress(in)
 	}
 	return List()
@@ -1112,8 +1173,12 @@ func gen(a Args, out *Out) {
 		if a.Thorough() && rx.Chance(1, 4) {
 			n = 2000
 		}
-		in := Ints(3, int64(P), int64(C), int64(n))
-		out.Case("concurrent-stress", P+C > 2, in, run(in))
+		in := Ints(int64(3+rx.Intn(2)), int64(P), int64(C), int64(n))
+		kindS := "concurrent-stress"
+		if in.At(0).AsInt() == 4 {
+			kindS = "concurrent-stress-reuse"
+		}
+		out.Case(kindS, P+C > 2, in, run(in))
 		out.CountN("stress:enqueued", P*n)
 	}
 	out.CountN("read repeated right before and after a mutating call", echoes)
